@@ -90,7 +90,18 @@ all_reference_ids: Set[str] = set()
 def managed_provide_cache(provide_id: str) -> Generator[None, None, None]:
     all_reference_ids_before = all_reference_ids.copy()
 
+    # While the body of `{% provide %}` is being rendered, the provider itself holds a reference
+    # to its data. Otherwise a component that finishes rendering inside the body (and so drops
+    # the last reference) would delete the data from under its siblings.
+    if provide_id not in provide_references:
+        provide_references[provide_id] = set()
+    provide_references[provide_id].add(provide_id)
+
     def cache_cleanup() -> None:
+        # Release the provider's own reference
+        if provide_id in provide_references:
+            provide_references[provide_id].discard(provide_id)
+
         # Lastly, remove provided data from the cache that was generated during this run,
         # IF there are no more references to it.
         if provide_id in provide_references and not provide_references[provide_id]:
